@@ -23,6 +23,7 @@ type Obligation struct {
 	Goal   string
 	Clause string // source text of the contract clause, if any
 	Cover  bool   // cover obligation: expected SAT
+	ReachProbe bool // a reachability probe precedes this obligation in the incremental script
 	Probes []Probe
 	// results
 	Status string // unsat | sat | unknown | timeout | error
@@ -66,6 +67,9 @@ type Enc struct {
 	indexTerms []indexTerm
 	pol        int // polarity of the formula being evaluated: +1 goal, -1 hypothesis, 0 unknown
 	goalSkolems []string
+	nestInst int
+	droppedNested int
+	curGoalSkolems []string // Skolem constants of the goal whose hypotheses are being instantiated
 	quantFacts []*quantFact
 	quantPats  []quantPat
 	unproved   []string
@@ -520,4 +524,25 @@ type quantPat struct {
 	bv    string
 	pats  []string
 	names []string
+}
+
+// evalMode: the evaluator's mode counters. A spec evaluation abandoned by a
+// recovered panic must not leave them changed (a stuck inQuant silently turns
+// every later assumption into a no-op).
+type evalMode struct {
+	inQuant, noObl, instDepth, nestInst, invDepth, pol, nPats int
+	reach                                               string
+	state                                               *State
+}
+
+func (e *Enc) saveMode() evalMode {
+	return evalMode{e.inQuant, e.noObl, e.instDepth, e.nestInst, e.invDepth, e.pol, len(e.quantPats), e.curReach, e.curState}
+}
+
+func (e *Enc) restoreMode(m evalMode) {
+	e.inQuant, e.noObl, e.instDepth, e.nestInst, e.invDepth, e.pol = m.inQuant, m.noObl, m.instDepth, m.nestInst, m.invDepth, m.pol
+	if len(e.quantPats) > m.nPats {
+		e.quantPats = e.quantPats[:m.nPats]
+	}
+	e.curReach, e.curState = m.reach, m.state
 }
